@@ -40,6 +40,13 @@ fn rule_pool() -> Vec<(&'static str, &'static str)> {
         ("call_c_field_s", "c(s)"),
         ("call_c_symbol_s", "[c(:s), n(:s)]"),
         ("call_c_similar", "[c(d1.0), c(f0.0), c(f-0.0), c(i1)]"),
+        // container symbols used directly as operands: a failing rule stays a failing rule
+        ("sym_in_map_bad_item", "x.y in :blocked"),
+        ("sym_in_map", "[\"a\" in :blocked, :blocked contains \"zz\", i1 in :allowed, :allowed contains none]"),
+        ("sym_index", "[:blocked.a, :allowed.1, :blocked.zz, :nn.a]"),
+        ("sym_index_bad", ":s.a"),
+        ("sym_index_bad_kind", ":blocked.0"),
+        ("sym_and_flag", "[x.y and :off, x.y or :on]"),
     ]
 }
 
@@ -62,7 +69,16 @@ fn inputs() -> Vec<(&'static str, RV)> {
 }
 
 fn symbols() -> BTreeMap<String, RV> {
-    [("s".to_string(), RV::Str("sym".into()))].into_iter().collect()
+    [
+        ("s".to_string(), RV::Str("sym".into())),
+        ("blocked".to_string(), RV::map(&[("a", RV::Int(1)), ("0", RV::Int(2))])),
+        ("allowed".to_string(), RV::List(vec![RV::Int(1), RV::Str("a".into())])),
+        ("nn".to_string(), RV::None),
+        ("on".to_string(), RV::Bool(true)),
+        ("off".to_string(), RV::Bool(false)),
+    ]
+    .into_iter()
+    .collect()
 }
 
 /// deterministic function value: depends on function and argument only
